@@ -29,9 +29,11 @@ Old(img, off) == img[off + 1] + 256 * img[off + 2] + 65536 * img[off + 3]       
 ClmBases == << << [name |-> <<116,49>>, data |-> <<11,12,13,14,15>>], [name |-> <<84,50,95,108,111,110,103,56>>, data |-> <<21,22>>] >>,
                << [name |-> <<97>>, data |-> <<>>], [name |-> <<98>>, data |-> <<31,32,33>>], [name |-> <<99,99>>, data |-> <<41,42,43,44>>] >>,
                <<>> >>
-Calls(n) == << [call |-> "GetCount", i |-> 0] >> \o Flatten([j \in 1..(n + 2) |-> LET i == j - 1 IN << [call |-> "GetName", i |-> i], [call |-> "GetSize", i |-> i],
+\* two call scripts per image: members in ascending and in descending order, so that a refused call is followed by calls on
+\* other (intact) members in both directions
+CallsDir(n, up) == << [call |-> "GetCount", i |-> 0] >> \o Flatten([j \in 1..(n + 2) |-> LET i == IF up THEN j - 1 ELSE n + 2 - j IN << [call |-> "GetName", i |-> i], [call |-> "GetSize", i |-> i],
                  [call |-> "OpenStream", i |-> i], [call |-> "GetName", i |-> i], [call |-> "Extract", i |-> i], [call |-> "OpenStream", i |-> i] >>])
-EmitClm(id, img, n) == PrintT("S|" \o ToJson([id |-> id, steps |-> << [op |-> "robust_clm", image |-> img, calls |-> Calls(n)] >>]))
+EmitClm(id, img, n) == \A up \in BOOLEAN : PrintT("S|" \o ToJson([id |-> <<id, up>>, steps |-> << [op |-> "robust_clm", image |-> img, calls |-> CallsDir(n, up)] >>]))
 \* ---- WAV images ---------------------------------------------------------------------------------------
 \* chunk list: <<tag, payload>>; RIFF size is computed, every chunk header is a fault target
 Chunk(tag, payload) == tag \o LE32(Len(payload)) \o payload
